@@ -126,6 +126,16 @@ def _param_chains(fn, pname):
     return out
 
 
+def _cache_key(fn, cache):
+    """The tuple assigned to the local that subscripts `cache` in its (single) store `cache[<name>] = ...`."""
+    subs = {s.targets[0].slice.id for s in ast.walk(fn) if isinstance(s, ast.Assign) and isinstance(s.targets[0], ast.Subscript) and unparse(s.targets[0].value) == cache and isinstance(s.targets[0].slice, ast.Name)}
+    if len(subs) != 1:
+        return None
+    name = subs.pop()
+    vals = [s.value for s in ast.walk(fn) if isinstance(s, ast.Assign) and unparse(s.targets[0]) == name]
+    return vals[0] if len(vals) == 1 else None
+
+
 def cache_keys(ctx):
     r = ctx.rule("FX-CACHE-KEY", "the key of each FMM interface cache contains every parameter read while building the cached interface", 2)
     rel = "bempp_cl/api/fmm/fmm_assembler.py"
@@ -133,7 +143,7 @@ def cache_keys(ctx):
     ex = ctx.repo.mod("bempp_cl/api/fmm/exafmm.py")
     # boundary cache
     fn = m.fn("get_fmm_interface")
-    key = next((s.value for s in fn.body if isinstance(s, ast.Assign) and unparse(s.targets[0]) == "key"), None)
+    key = _cache_key(fn, "_FMM_CACHE")
     if not isinstance(key, ast.Tuple):
         raise AnalysisError("get_fmm_interface: key tuple not found")
     in_key = {unparse(e).replace("parameters.", "") for e in key.elts if unparse(e).startswith("parameters.")}
@@ -144,7 +154,7 @@ def cache_keys(ctx):
             "the interface is built from parameters %s but the cache key only contains %s: a later request with different %s gets the stale interface" % (sorted(read), sorted(in_key), missing))
     # potential cache
     fp = m.fn("get_fmm_potential_interface")
-    keyp = next((s.value for s in fp.body if isinstance(s, ast.Assign) and unparse(s.targets[0]) == "key"), None)
+    keyp = _cache_key(fp, "_FMM_POTENTIAL_CACHE")
     if not isinstance(keyp, ast.Tuple):
         raise AnalysisError("get_fmm_potential_interface: key tuple not found")
     readp = set()
@@ -254,7 +264,9 @@ def precision_pin(ctx):
     m = ctx.repo.mod(rel)
     for qn in ("singular_assembler", "dense_assembler", "potential_assembler"):
         fn = m.fn(qn)
-        asg = [s for s in fn.body if isinstance(s, ast.Assign) and unparse(s.targets[0]) == "precision"]
-        ok = len(asg) == 1 and isinstance(asg[0].value, ast.Constant) and asg[0].value.value == "double"
+        # by provenance, not by the local's name: whatever reaches grid.data(...) / get_type(...) is the literal 'double'
+        defs = roles.Defs(fn, extra_scopes=[n for n in ast.walk(fn) if isinstance(n, ast.FunctionDef) and n is not fn])
+        sinks = [c.args[0] for c in ast.walk(fn) if isinstance(c, ast.Call) and c.args and ((isinstance(c.func, ast.Attribute) and c.func.attr == "data") or unparse(c.func).split(".")[-1] == "get_type")]
+        ok = bool(sinks) and all(roles.canon(a, defs).replace(" ", "") == "'double'" for a in sinks)
         uses_desc = any(isinstance(n, ast.Attribute) and n.attr == "precision" and unparse(n.value) == "operator_descriptor" for n in ast.walk(fn))
         r.check(ok and not uses_desc, qn, rel, qn, fn.lineno, "precision pin in " + qn, "computation precision is not pinned to 'double' (or operator_descriptor.precision is read)")
